@@ -305,7 +305,7 @@ ADDED = {
  "C17": " Added since: copy / move histories of grids; ASan build with assertions compiled out; many angle counts (even ntheta up to 1300); grids from the parametric constructor with divideBy2.",
  "C18": " Added since: coordinate lists with equal neighbours (files, vectors, thin annulus); nestedness oracle on the implementation (divideBy2 = d contains d - 1).",
  "C19": " Added since: 15 source terms of the Circular geometry proved symbolically (C19s); finite-difference oracle on the compiled classes; evaluation histories (several objects of one class alive together); the shipped inputs satisfy the hypotheses of the end-to-end theorem (C19i) and C19e states shipped problem -> fixed point of the concrete cycle in one theorem.",
- "C20": " Added since: setup() decision table (C20s) on real traces; Vector copies and kernels under ASan/UBSan around the parallel switch; reported error figures vs serial recomputation.",
+ "C20": " Added since: totality of the concrete plain / extrapolated cycles and of the FMG start-up over the code-level models (C10e, C10f, C09c: the modelled smoothers, assemblies and sparse LU never take the exit branch nor store out of bounds on admissible hierarchies); setup() decision table (C20s) on real traces; Vector copies and kernels under ASan/UBSan around the parallel switch; reported error figures vs serial recomputation.",
 }
 
 PENDING_REASON = "not claimed yet: model and theorems for this property are still being built (see DESIGN.md section 7)"
